@@ -47,4 +47,15 @@ __CPROVER_ensures(WF_LIST_FIELDS(TXL(connp)) || TXL(connp)->current_size == 0)
 /* what remains starts with a live transaction */
 __CPROVER_ensures(TXL(connp)->current_size > 0 ==> VIEW(TXL(connp), 0) != NULL)
 ;
+
+/* detaching a transaction that is being destroyed: afterwards NEITHER direction refers to it (a transaction can be the current one of
+ * both directions at once: CONNECT hand-over, early response), the other direction keeps whatever else it had; nothing else is written.
+ * This is what makes "destroy a completed transaction inside a callback" safe (C01): no dangling in_tx / out_tx. */
+void contract_htp_connp_tx_remove(htp_connp_t *connp, htp_tx_t *tx)
+__CPROVER_requires(connp == NULL || __CPROVER_is_fresh(connp, sizeof(*connp)))
+__CPROVER_assigns(connp != NULL: connp->in_tx, connp->out_tx)
+__CPROVER_ensures(connp != NULL ==> (connp->in_tx != tx || tx == NULL) && (connp->out_tx != tx || tx == NULL))
+__CPROVER_ensures(connp != NULL ==> (connp->in_tx == __CPROVER_old(connp->in_tx) || (connp->in_tx == NULL && __CPROVER_old(connp->in_tx) == tx)))
+__CPROVER_ensures(connp != NULL ==> (connp->out_tx == __CPROVER_old(connp->out_tx) || (connp->out_tx == NULL && __CPROVER_old(connp->out_tx) == tx)))
+;
 #endif
